@@ -206,6 +206,8 @@ type liveJob struct {
 	want    []string
 	ty      model.Type
 	ordered bool
+	cmp     int
+	base    []string
 	state   int
 }
 
@@ -269,7 +271,7 @@ func runLive(t pbt.TB, c Case) {
 		switch {
 		case st.State != gripql.JobState_COMPLETE:
 			disc("live:"+where+":state", "job %s: state %s", j.id, st.State)
-		case int(st.Count) != len(j.want):
+		case j.cmp != cmpSelf && int(st.Count) != len(j.want):
 			disc("live:"+where+":count", "job %s (%s): Count=%d, the direct traversal returns %d rows", j.id, model.TravString(j.steps), st.Count, len(j.want))
 		case st.Id != j.id || st.Graph != names[j.graph] || !sameQuery(st.Query, j.q):
 			disc("live:"+where+":identity", "job %s: status carries id=%q graph=%q query=%v", j.id, st.Id, st.Graph, st.Query)
@@ -299,9 +301,14 @@ func runLive(t pbt.TB, c Case) {
 		if restarted {
 			sig = "live:restart:rows:" + j.ty.String()
 		}
-		if j.ordered {
-			if len(rows) != len(j.want) {
+		if j.cmp != cmpRows {
+			switch {
+			case j.cmp == cmpCount && len(rows) != len(j.want):
 				disc(sig, "job %s (%s): %d stored rows, the direct traversal returns %d", j.id, model.TravString(j.steps), len(rows), len(j.want))
+			case j.base == nil:
+				j.base = rows
+			case gripx.DiffMultiset(rows, j.base) != "":
+				disc("live:rows-changed:"+j.ty.String(), "job %s (%s): the stored rows differ from those read earlier: %s", j.id, model.TravString(j.steps), gripx.DiffMultiset(rows, j.base))
 			}
 			return
 		}
@@ -354,7 +361,7 @@ func runLive(t pbt.TB, c Case) {
 		switch op.Kind {
 		case "submit":
 			ty := model.TypeCheck(op.Steps)
-			j := &liveJob{graph: op.Graph, steps: op.Steps, q: model.Protos(op.Steps), ty: ty.Final, ordered: orderSensitive(op.Steps), state: jGone}
+			j := &liveJob{graph: op.Graph, steps: op.Steps, q: model.Protos(op.Steps), ty: ty.Final, ordered: orderSensitive(op.Steps), cmp: cmpMode(op.Steps), state: jGone}
 			jobs = append(jobs, j)
 			if ty.Verdict != model.WellTyped {
 				continue
